@@ -301,10 +301,19 @@ func ExportCase(t *simrt.Tape) (*WF, map[string]string, []string) {
 	p := Profile{MaxProcs: 5, MaxItems: 4, Bufsizes: []int{0, 1, 2, 3}, MaxSlots: 6,
 		Params: true, MultiOut: true, FanIn: true, FanOut: true, NoPort: true,
 		Subdirs: true, Cores: true, ParamSrc: true, TwoSources: true, Zip: true, Taggers: true, Joins: true, Extras: true, EmptyOuts: true}
-	w := Generate(t, p)
+	var w *WF
+	if t.Choose(simrt.StGen, 6, 0) == 1 {
+		// a streaming pair: real FIFOs, real blocking opens
+		w = streamWF(NewCase("export", "quick", t))
+	} else {
+		w = Generate(t, p)
+	}
 	ex := Eval(w)
 	files := map[string]string{}
 	for k, v := range ex.Files {
+		if ex.StreamPaths[k] {
+			continue // (never a file: the bytes go through the pipe)
+		}
 		files[k] = string(v)
 	}
 	return w, files, ex.TaskKeys()
